@@ -341,6 +341,10 @@ def instances(tier, seed):
             out.append(("g", g, "dynamic"))
             for sp in splits(g, rng)[:2]:
                 out.append(("g", dict(g, split=sp), "split"))
+            if (sum_op, prod_op) in (("add", "mul"), ("logaddexp", "add"), ("max", "add")):
+                # a free real parameter on each factor in turn (equal-sized nested plates: the parameter's multiplicity is |i|*|j|)
+                for k in range(len(g["factors"])):
+                    out.append(("g", dict(g, param_factor=k), "param"))
     n = 40 if tier == "quick" else 400
     for sum_op, prod_op, car in SEMIRINGS:
         graphs = gen_graphs(rng, n, 4 if tier == "quick" else 5, 3 if tier == "quick" else 4, 2 if tier == "quick" else 3, 2 if tier == "quick" else 3)
